@@ -53,6 +53,12 @@ c["selftest"] = {
 c["explanation"] += " THOROUGH: same rules re-evaluated under GOARCH=386 and without build tags (verdicts must be identical), reachability rules additionally on the VTA call graph, and the checker is tested against %d semantic mutants of the current tree (%d as expected)." % (len(res), c["selftest"]["ok"])
 e["wall_s"] = round(time.time() - t0, 1)
 json.dump(e, open(ev, "w"), indent=1)
+if st.get("error") or not res:
+    # the self-test is evidence about the checker, not about the property: its failure to run (no disk space for the
+    # scratch copies, for one) is reported and recorded, the verdict of the rules on the tree stands
+    c["selftest"]["error"] = st.get("error") or "no mutant could be run"
+    print(f"SELFTEST-ERROR property={prop} the checker self-test did not run: {c['selftest']['error'][-200:]!r}")
+    json.dump(e, open(ev, "w"), indent=1)
 for r in miss:
     print(f"SELFTEST-MISS property={prop} mutant={r['id']} expect={r.get('expect')} exit={r.get('exit')} ({r.get('desc','')})")
 print(f"{prop} [thorough]: configurations agree={agree}; self-test {c['selftest']['ok']}/{len(res)} mutants as expected, {len(miss)} missed, {len(c['selftest']['skipped'])} skipped")
